@@ -11,12 +11,15 @@ VERIF=/verif
 mkdir -p $VERIF/build
 H=$( (cd $SRC && ls *.c *.h *.erf *.yuck *.in 2>/dev/null | grep -v -e '-gp\.c$' -e '^version\.c$' | LC_ALL=C sort | xargs sha256sum; sha256sum $VERIF/harness/build.sh; echo "$SRC") | sha256sum | cut -c1-16)
 B=$VERIF/build/$H/$FLAV
-if [ -f $B/.done ]; then echo $B; exit 0; fi
+if [ -f $B/.done ]; then touch $B/.done; echo $B; exit 0; fi
 exec 9>$VERIF/build/.lock
 flock 9
 if [ -f $B/.done ]; then echo $B; exit 0; fi
-# keep the six newest builds (a check in flight on an older tree must not lose its build)
-ls -1dt $VERIF/build/*/ 2>/dev/null | tail -n +7 | xargs -r rm -rf
+# prune: builds beyond the eight most recently used ones, and only if not used for three hours
+# (a check in flight on an older tree, or on a scratch worktree, must not lose its build)
+for d in $(ls -1dt $VERIF/build/*/ 2>/dev/null | tail -n +9); do
+  if [ -z "$(find $d -maxdepth 2 -name .done -mmin -180 2>/dev/null | head -1)" ]; then rm -rf $d; fi
+done
 mkdir -p $B/gen $B/obj
 # generated sources: made from the current .erf/.yuck with the repository's tools, into our own dir
 for e in $SRC/*.erf; do b=$(basename $e .erf); gperf -L ANSI-C "$e" --output-file $B/gen/$b.c 2>$B/gen/$b.log || { echo "gperf failed on $e" >&2; exit 2; }; done
